@@ -434,6 +434,52 @@ def call(fn, recorder=None):
     return out
 
 
+def structure_dump(project):
+    """The model as the user built it: every list of the public objects in its order (IDs), every map in its item order,
+    every setting.  A run may change states and logs, never this."""
+    def ids(xs):
+        return [_id(x) for x in (xs or [])]
+
+    p = project
+    d = {"task_list": ids(p.workflow.task_list), "component_list": ids(p.product.component_list),
+         "team_list": ids(p.organization.team_list), "workplace_list": ids(p.organization.workplace_list),
+         "tasks": {}, "components": {}, "teams": {}, "workers": {}, "workplaces": {}, "facilities": {}}
+    for t in p.workflow.task_list:
+        d["tasks"][t.ID] = {
+            "input_task_list": [[_id(a), int(k)] for a, k in t.input_task_list],
+            "output_task_list": [[_id(a), int(k)] for a, k in t.output_task_list],
+            "allocated_team_list": ids(t.allocated_team_list), "allocated_workplace_list": ids(t.allocated_workplace_list),
+            "target_component": _id(t.target_component) if t.target_component is not None else None,
+            "fixing_allocating_worker_id_list": _plain(t.fixing_allocating_worker_id_list),
+            "fixing_allocating_facility_id_list": _plain(t.fixing_allocating_facility_id_list),
+            "settings": [t.name, _plain(t.default_work_amount), _plain(t.work_amount_progress_of_unit_step_time), bool(t.need_facility),
+                         bool(t.auto_task), _plain(t.default_progress), _plain(t.due_time), int(t.workplace_priority_rule),
+                         int(t.worker_priority_rule), int(t.facility_priority_rule)],
+        }
+    for c in p.product.component_list:
+        d["components"][c.ID] = {"child_component_list": ids(c.child_component_list), "parent_component_list": ids(c.parent_component_list),
+                                 "targeted_task_list": ids(c.targeted_task_list), "settings": [c.name, _plain(c.space_size)]}
+    for tm in p.organization.team_list:
+        d["teams"][tm.ID] = {"worker_list": ids(tm.worker_list), "targeted_task_list": ids(tm.targeted_task_list),
+                             "parent_team": _id(tm.parent_team) if getattr(tm, "parent_team", None) is not None else None}
+        for w in tm.worker_list:
+            d["workers"][str(w.ID) + "@" + str(tm.ID)] = {
+                "workamount_skill_mean_map": [[k, _plain(v)] for k, v in w.workamount_skill_mean_map.items()],
+                "workamount_skill_sd_map": [[k, _plain(v)] for k, v in w.workamount_skill_sd_map.items()],
+                "facility_skill_map": [[k, _plain(v)] for k, v in w.facility_skill_map.items()],
+                "absence_time_list": _plain(w.absence_time_list), "settings": [w.name, w.team_id, _plain(w.cost_per_time), bool(w.solo_working), w.main_workplace_id]}
+    for wp in p.organization.workplace_list:
+        d["workplaces"][wp.ID] = {"facility_list": ids(wp.facility_list), "targeted_task_list": ids(wp.targeted_task_list),
+                                  "input_workplace_list": ids(wp.input_workplace_list), "output_workplace_list": ids(wp.output_workplace_list),
+                                  "settings": [wp.name, _plain(wp.max_space_size)]}
+        for f in wp.facility_list:
+            d["facilities"][str(f.ID) + "@" + str(wp.ID)] = {
+                "workamount_skill_mean_map": [[k, _plain(v)] for k, v in f.workamount_skill_mean_map.items()],
+                "workamount_skill_sd_map": [[k, _plain(v)] for k, v in f.workamount_skill_sd_map.items()],
+                "absence_time_list": _plain(f.absence_time_list), "settings": [f.name, f.workplace_id, _plain(f.cost_per_time), bool(f.solo_working)]}
+    return d
+
+
 def diff_attrs(a, b):
     """Set of 'kind.attr' names (top-level keys for scalars) in which two dumps differ."""
     out = set()
